@@ -89,7 +89,7 @@ func c11Read(N, R int, withRanges bool) *c11World {
 	w := &c11World{}
 	n := 1 + ndChoice("n", N)
 	for k := 0; k < n; k++ {
-		c := c11Conf{file: ndChoice("file", 2), line: ndInt("line", 1, 50), offset: ndInt("offset", 0, 1000), nilID: ndChoice("nil", 2), single: ndChoice("single", 2) == 1}
+		c := c11Conf{file: ndChoice("file", ndParam("FILES", 2)), line: ndInt("line", 1, 50), offset: ndInt("offset", 0, 1000), nilID: ndChoice("nil", 2), single: ndChoice("single", 2) == 1}
 		c.marker = c11Marker(k, c11Files()[c.file])
 		w.confs = append(w.confs, c)
 	}
